@@ -43,8 +43,12 @@ local function probe()
   return table.concat(out, "\n")
 end
 
+-- the same enumeration while the script's top-level chunk runs (restrictions must already be in place then)
+local load_ok, load_res = pcall(probe)
+
 function validate(ctx, content)
   local ok, res = pcall(probe)
-  if ok then return "PROBE\n" .. res end
-  return "PROBE-ERROR " .. tostring(res)
+  if not ok then return "PROBE-ERROR " .. tostring(res) end
+  if not load_ok then return "PROBE-ERROR at load time " .. tostring(load_res) end
+  return "PROBE\n" .. res .. "\n@@LOADTIME\n" .. load_res
 end
